@@ -6,7 +6,7 @@ globals().update(
         pid="C03",
         props=["JaqalProofs/Props/C03.lean", "JaqalProofs/Lemmas/WalkSerialize.lean", "JaqalProofs/Props/C03Unitary.lean"],
         targets=["JaqalProofs.Props.C03", "JaqalProofs.Lemmas.WalkSerialize", "JaqalProofs.Props.C03Unitary"],
-        diffs=[("harness.agents.emu_diff", 400, 4000), ("harness.agents.walk_diff", 600, 6000), ("harness.agents.c03_gatesets", 400, 2500), ("harness.agents.c03_edge", 2000, 20000), ("harness.agents.c03_scale", 120, 300), ("harness.agents.c03_combo", 250, 8000)],
+        diffs=[("harness.agents.emu_diff", 400, 4000), ("harness.agents.walk_diff", 600, 6000), ("harness.agents.c03_gatesets", 400, 2500), ("harness.agents.c03_edge", 2000, 20000), ("harness.agents.c03_scale", 120, 300), ("harness.agents.c03_combo", 250, 8000), ("harness.agents.c03_traps", 600, 6000)],
         trusted=[
             STD_TRUST,
             "hand-written model JaqalModel/Model/Emulator.lean: the loop nest of UnitarySerializedEmulator._make_subcircuit transcribed step for step (rowMask / colIndex / applyGate / runGates), executable over Gaussian dyadic numbers",
